@@ -370,7 +370,10 @@ func GenC11(seed uint64) *Scenario {
 	if fs == "" {
 		fs = supi
 	}
+	// the first follow-up is a recharge notification for the subscriber as the probe left it
+	// (e.g. a session created without notifyUri), then a fresh session
 	ops = append(ops,
+		Op{ID: g.id(), Kind: "recharge", Supi: fs, RG: 1, Role: "followup"},
 		Op{ID: g.id(), Kind: "create", Supi: fs, Sess: "f1", Consumer: "smf-f", ChargingID: 6, Role: "followup"},
 		Op{ID: g.id(), Kind: "update", Supi: fs, Sess: "f1", Role: "followup", Units: []Unit{{RG: 1, Req: 100, Containers: []Container{g.online(0)}}}},
 		Op{ID: g.id(), Kind: "release", Supi: fs, Sess: "f1", Role: "followup", Final: true, Units: []Unit{{RG: 1, Req: 0, Containers: []Container{g.online(100)}}}})
